@@ -651,7 +651,7 @@ func more3ProxyCreateThenTag(p *Program, r *Report) {
 
 func more3EventKeyVerbatim(p *Program, r *Report) {
 	rule := "R-C19-9"
-	r.Rule(rule, "the notification names the key the request named: in s3event.createEventSchema the object key is cut out of the request path without a normalising call (strings.Trim/TrimSuffix/TrimRight, path.Clean, ToLower ...): directory-object keys end in '/'", 1)
+	r.Rule(rule, "the notification names the key the request named: in s3event.createEventSchema the object key is cut out of the request path without a normalising call (strings.Trim/TrimSuffix/TrimRight, path.Clean, ToLower ...) and without a second percent-decoding (fasthttp URI().Path(), url.PathUnescape): directory-object keys end in '/', a key may contain a literal %41", 1)
 	f := p.Func("s3event.createEventSchema")
 	norm := ""
 	n := 0
@@ -674,6 +674,11 @@ func more3EventKeyVerbatim(p *Program, r *Report) {
 				if rt.Kind == "via" || rt.Kind == "call" {
 					switch rt.Desc {
 					case "strings.Trim", "strings.TrimSuffix", "strings.TrimRight", "strings.TrimSpace", "path.Clean", "path/filepath.Clean", "path.Join", "path/filepath.Join", "strings.ToLower", "strings.ToUpper", "strings.ReplaceAll":
+						norm = rt.Desc
+					}
+					// a second decoding: the path fiber hands out is decoded already; fasthttp's URI().Path()
+					// (or an explicit unescape) decodes what it is given once more
+					if strings.Contains(rt.Desc, "fasthttp.URI).Path") || strings.HasPrefix(rt.Desc, "net/url.") {
 						norm = rt.Desc
 					}
 				}
